@@ -47,6 +47,55 @@ def e2_job(args):
                     wall=time.time() - t0)
 
 
+def _job_child(args, conn):
+    try:
+        conn.send(e2_job(args))
+    except Exception as e:       # pragma: no cover
+        conn.send(dict(tag=args[3], fixed=args[1], ok=False, error='child failed: %r' % (e,), wall=0.0))
+    finally:
+        conn.close()
+
+
+def run_jobs(jobs, job_timeout):
+    """own process pool: one process per job (a crash or a hang of z3 in one job must not take the run down);
+    a job that dies or exceeds job_timeout is recorded as an engine error (inconclusive), never as success"""
+    import multiprocessing as mp
+    ctx = mp.get_context('fork')
+    pending = list(enumerate(jobs))
+    running = {}
+    results = [None] * len(jobs)
+    while pending or running:
+        while pending and len(running) < NCPU:
+            i, a = pending.pop(0)
+            pc, cc = ctx.Pipe(duplex=False)
+            p = ctx.Process(target=_job_child, args=(a, cc))
+            p.start()
+            cc.close()
+            running[i] = (p, pc, time.time(), a)
+        done = []
+        for i, (p, pc, t0, a) in running.items():
+            if pc.poll():
+                try:
+                    results[i] = pc.recv()
+                except EOFError:
+                    results[i] = dict(tag=a[3], fixed=a[1], ok=False, error='worker process died (exit code %s)' % p.exitcode, wall=time.time() - t0)
+                p.join(5)
+                done.append(i)
+            elif not p.is_alive():
+                results[i] = dict(tag=a[3], fixed=a[1], ok=False, error='worker process died (exit code %s)' % p.exitcode, wall=time.time() - t0)
+                done.append(i)
+            elif time.time() - t0 > (a[2].get('job_timeout') or job_timeout):
+                p.terminate()
+                p.join(5)
+                results[i] = dict(tag=a[3], fixed=a[1], ok=False, error='job exceeded the wall-clock cap of %d s' % (a[2].get('job_timeout') or job_timeout), wall=time.time() - t0)
+                done.append(i)
+        for i in done:
+            running.pop(i)
+        if not done:
+            time.sleep(0.05)
+    return results
+
+
 def expand_split(split):
     if not split:
         return [{}]
@@ -251,19 +300,21 @@ def run_property(prop_id, spec, tier, seed=0, only_unit=None, keep=False, verbos
                         max_paths=u.get('max_paths', 200000), overrides=u.get('overrides', {}),
                         resolve_selects=u.get('resolve_selects', False), concrete_defaults=u.get('concrete', False), numeric_exp=u.get('numeric_exp', False))
             for fx in expand_split(u.get('split')):
-                jobs.append((unit_paths[u['name']], fx, opts, u['name']))
+                opts['job_timeout'] = u.get('job_timeout')
+                jobs.append((unit_paths[u['name']], fx, dict(opts), u['name']))
         rnd = random.Random(seed)
         rnd.shuffle(jobs)
         # longest first is unknown; keep shuffled
         results = []
         t0 = time.time()
-        with ProcessPoolExecutor(max_workers=NCPU) as ex:
-            for r in ex.map(e2_job, jobs, chunksize=1):
-                results.append(r)
+        results = run_jobs(jobs, int(os.environ.get('VERIF_JOB_TIMEOUT', '1500' if tier == 'quick' else '7200')))
         say('[%s] %d jobs done in %.1fs' % (prop_id, len(jobs), time.time() - t0))
+        if os.environ.get('VERIF_DUMP_JOBS'):
+            json.dump([dict(tag=x['tag'], fixed=x['fixed'], ok=x['ok'], wall=round(x.get('wall', 0), 1), err=(x.get('error') or '')[:80]) for x in results], open(os.environ['VERIF_DUMP_JOBS'], 'w'))
 
         # ---- aggregate
         agg = {}
+        timed_out = []
         engine_errors = []
         all_viol = []
         all_issues = []
@@ -275,6 +326,11 @@ def run_property(prop_id, spec, tier, seed=0, only_unit=None, keep=False, verbos
                                               violations=0, issues=0, solver_time=0.0))
             a['jobs'] += 1
             if not r['ok']:
+                if 'wall-clock cap' in r['error']:
+                    # a job that did not finish inside its cap is INCONCLUSIVE (recorded, never counted as discharged)
+                    a['timed_out'] = a.get('timed_out', 0) + 1
+                    timed_out.append('%s %s' % (r['tag'], r['fixed']))
+                    continue
                 engine_errors.append('%s %s: %s' % (r['tag'], r['fixed'], r['error']))
                 a['errors'].append(r['error'][:300])
                 continue
@@ -403,6 +459,8 @@ def run_property(prop_id, spec, tier, seed=0, only_unit=None, keep=False, verbos
             say('ENGINE-ERROR', e[:500])
         if n_inc:
             say('INCONCLUSIVE %d queries (time-out / unknown) — recorded, not counted as discharged' % n_inc)
+        if timed_out:
+            say('INCONCLUSIVE %d jobs exceeded their wall-clock cap — recorded, not counted as discharged: %s' % (len(timed_out), '; '.join(timed_out[:6])))
         if missing:
             say('ERROR vacuity witnesses not reached:', ', '.join(missing))
         if val_problems:
@@ -434,6 +492,7 @@ def run_property(prop_id, spec, tier, seed=0, only_unit=None, keep=False, verbos
                            checks=a['checks'], witnesses=a['reached'], path_ends=a['ended'], errors=a['errors'][:5])
                    for k, a in agg.items()},
             queries=dict(discharged=n_disch, violated=n_vio, inconclusive=n_inc, decided_concretely=n_conc),
+            jobs_total=len(jobs), jobs_timed_out=timed_out[:50],
             obligations=n_disch + n_vio + n_inc, discharged=n_disch,
             witnesses_reached=nwit, witnesses_missing=missing,
             distinct_nontrivial=nwit, evaluations=max(tot['paths'], 1),
